@@ -102,7 +102,7 @@ Definition ctc_body (rec : aval -> result node) (fi : aval) (ty : string) (ops :
   if String.eqb ty "FeatureTerm" then
     match nth_operand ops 0 with Err e => Err e | Ok x =>
     match finfo_get fi x "name" with Err e => Err e | Ok nv =>
-    match jstr nv with Err e => Err e | Ok nm => Ok (term nm) end end end
+    match jstr nv with Err _ => Err FlamaException | Ok nm => Ok (term nm) end end end
   else if String.eqb ty "NotTerm" then
     match sub 0%nat with Err e => Err e | Ok a => Ok (un NOT a) end
   else if String.eqb ty "ImpliesTerm" then bin2 IMPLIES
@@ -218,7 +218,7 @@ Ltac rr_step H x x' Ex Ex' :=
   | res_rel _ ?a ?b =>
       let e := fresh "e" in let e' := fresh "e" in
       destruct a as [x|e] eqn:Ex; destruct b as [x'|e'] eqn:Ex'; cbn [res_rel] in H;
-      [ | contradiction | contradiction | rewrite H; reflexivity ]
+      [ | contradiction | contradiction | first [rewrite H; reflexivity | reflexivity] ]
   end.
 
 Section Compat.
@@ -1074,8 +1074,8 @@ Lemma json_parse_ctc_S' fuel info :
   json_parse_ctc (S fuel) info =
   match jget "type" info with Err e => Err e | Ok tv =>
   match jget "operands" info with Err e => Err e | Ok ov =>
-  match jstr tv with Err e => Err e | Ok ty =>
-  match jlist ov with Err e => Err e | Ok ops => jctc_body (json_parse_ctc fuel) ty ops
+  match jlist ov with Err _ => Err ParsingException | Ok ops =>
+  match jstr tv with Err _ => Err ParsingException | Ok ty => jctc_body (json_parse_ctc fuel) ty ops
   end end end end.
 Proof. reflexivity. Qed.
 
@@ -1230,8 +1230,8 @@ Section JCompat.
     destruct n2 as [|n2]. { pose proof (aval_depth_pos c'). lia. }
     rewrite !json_parse_ctc_S'. destruct (Hc _ _ H) as (_ & Hty & Hops).
     rr_step Hty tv tv' E1 E2. rr_step Hops ov ov' E3 E4. unfold jstr_eq in Hty. rewrite <- Hty.
-    destruct (jstr tv) as [ty|e]; [|reflexivity].
     unfold jlist_rel in Hops. rr_step Hops ops ops' E5 E6.
+    destruct (jstr tv) as [ty|e]; [|reflexivity].
     apply jctc_body_compat; [exact Hops|].
     intros x x' Hin Hin' Hxx. apply IH; [exact Hxx| |].
     - apply depth_jget in E3. pose proof (jlist_depth _ _ _ E5 Hin). lia.
